@@ -38,14 +38,21 @@ func genMarkupLineAt(tp *Tape, id string, allowFail, idLast bool) (string, bool)
 	fails := false
 	n := tp.Int(1, 7, "nchunks")
 	for i := 0; i < n; i++ {
+		// chunks are usually separated by a space, sometimes glued to what precedes them
+		sp := " "
+		if tp.Chance(35, "glue") {
+			sp = ""
+		}
 		switch tp.Pick([]int{6, 5, 3, 2, 2, 2, 1, 2}, "chunk") {
 		case 0:
-			sb.WriteString(" " + mkWords[tp.Int(0, len(mkWords)-1, "word")])
+			sb.WriteString(sp + mkWords[tp.Int(0, len(mkWords)-1, "word")])
 		case 1: // open marker, possibly with properties
 			name := mkNames[tp.Int(0, len(mkNames)-1, "name")]
 			open = append(open, name)
 			m := "[" + name
-			switch tp.Int(0, 4, "props") {
+			switch tp.Int(0, 5, "props") {
+			case 5:
+				m += " trimwhitespace=true"
 			case 1:
 				m += "=" + []string{"2", "x", "true", `"q r"`, "1.5"}[tp.Int(0, 4, "short")]
 			case 2:
@@ -55,7 +62,7 @@ func genMarkupLineAt(tp *Tape, id string, allowFail, idLast bool) (string, bool)
 			case 4:
 				m += " n=12 "
 			}
-			sb.WriteString(" " + m + "]")
+			sb.WriteString(sp + m + "]")
 		case 2: // close
 			if len(open) > 0 {
 				k := tp.Int(0, len(open)-1, "closeidx")
@@ -68,7 +75,7 @@ func genMarkupLineAt(tp *Tape, id string, allowFail, idLast bool) (string, bool)
 			sb.WriteString("[/]")
 			open = nil
 		case 4: // self-closing
-			sb.WriteString(" [" + mkNames[tp.Int(0, len(mkNames)-1, "name")] + []string{" /]", " t=3 /]", "/]", " trimwhitespace=false /]"}[tp.Int(0, 3, "self")] + " ")
+			sb.WriteString(sp + "[" + mkNames[tp.Int(0, len(mkNames)-1, "name")] + []string{" /]", " t=3 /]", "/]", " trimwhitespace=false /]", " trimwhitespace=true /]"}[tp.Int(0, 4, "self")] + []string{" ", "", "  "}[tp.Int(0, 2, "afterself")])
 		case 5: // escapes
 			sb.WriteString([]string{`\[`, `\]`, `\[x\]`}[tp.Int(0, 2, "esc")])
 		case 6: // replacement markers
